@@ -52,35 +52,61 @@ def varopt(facts):
     allinc = []
     walk(fn["body"], lambda n: allinc.append(n) if (n.get("k") == "Un" and n.get("op") == "++" and is_this_field(n["e"], ("n_",))) or (n.get("k") == "Assign" and is_this_field(n["l"], ("n_",))) else None)
     out.append(ob("varopt.update", "var_opt_sketch::update:counts-once", fn["pat"], "discharged" if len(incs) == 1 and len(allinc) == 1 else "violated", "n_ is incremented exactly once, unconditionally, for every accepted item" if len(incs) == 1 and len(allinc) == 1 else "n_ is modified %d time(s), %d at top level: n must equal the number of accepted items" % (len(allinc), len(incs)), fn["qname"]))
-    # dispatch
-    disp = [s for s in st if s.get("k") == "If" and txt(s["c"]).replace(" ", "") == C("(r_==0)")]
-    ok = False
-    why = "no `if (r_ == 0) warm-up else estimation` dispatch"
-    if disp:
-        d = disp[0]
-        warm = [c for c in _callnames(d["t"])]
-        est = d.get("e")
-        decls = local_decls(fn)
-        inl = {k: v["init"] for k, v in decls.items() if v.get("init") is not None and v["n"] in ("condition1", "condition2", "hypothetical_tau")}
-        chain = []
-        if est is not None:
-            for s in stmts_of(est):
-                if s.get("k") == "If" and _callnames(s.get("t")) and _callnames(s["t"])[0].startswith("update_"):
-                    x = s
-                    while x is not None and x.get("k") == "If":
-                        chain.append((txt(x["c"], inl).replace(" ", ""), _callnames(x["t"])[:1]))
-                        x2 = x.get("e")
-                        if x2 is not None and x2.get("k") != "If":
-                            inner = stmts_of(x2)
-                            if len(inner) == 1 and inner[0].get("k") == "If":
-                                x2 = inner[0]
-                            else:
-                                chain.append(("else", _callnames(x2)[:1]))
-                                x2 = None
-                        x = x2
-        want = [(C("(((h_==0)||(weight<=peek_min()))&&(weight<((weight+total_wt_r_)/((r_+1)-1))))"), ["update_light"]), (C("(r_==1)"), ["update_heavy_r_eq1"]), ("else", ["update_heavy_general"])]
-        ok = warm[:1] == ["update_warmup_phase"] and chain == want
-        why = "dispatch is warm-up=%s, estimation=%s; expected light iff (h_ == 0 || weight <= peek_min()) && weight < (weight + total_wt_r_) / r_, else r_ == 1 ? heavy_r_eq1 : heavy_general" % (warm[:1], chain)
+    # dispatch: as a truth function of  W := r_ == 0,  H0 := h_ == 0,  P := weight <= peek_min(),  B := weight < hypothetical tau,
+    # R1 := r_ == 1, each phase routine must be called exactly under its condition - whatever the nesting, the names of the
+    # intermediate booleans, or the order of the branches
+    from astu import single_assignment_locals, tt_eval, reach_tagged, eq_const
+    inl = single_assignment_locals(fn)
+    wd = fn["params"][1]["d"] if len(fn.get("params", [])) > 1 else None
+    TAU = C("((weight+total_wt_r_)/((r_+1)-1))")
+
+    def mk_atom(v):
+        def atom(n):
+            if n.get("k") != "Bin":
+                return None
+            ec = eq_const(n)
+            if ec and is_this_field(ec[0], ("r_",)) and ec[1] in (0, 1):
+                val = v["W"] if ec[1] == 0 else v["R1"]
+                return val if ec[2] == "==" else (not val)
+            if ec and is_this_field(ec[0], ("h_",)) and ec[1] == 0:
+                return v["H0"] if ec[2] == "==" else (not v["H0"])
+            gp = gt_pair(n)
+            if gp and strip_all(gp[1]).get("k") == "Ref" and strip_all(gp[1]).get("d") == wd:
+                big = C(txt(gp[0], inl))
+                if not gp[2] and big == "peek_min()":
+                    return v["P"]
+                if gp[2] and big == TAU:
+                    return v["B"]
+            return None
+        return atom
+    sites = {}
+    walk(fn["body"], lambda n: sites.setdefault(n["cname"], []).append(n) if n.get("k") == "Call" and n.get("cname") in ("update_warmup_phase", "update_light", "update_heavy_r_eq1", "update_heavy_general") and (n.get("obj") is None or strip(n["obj"]).get("k") == "This") else None)
+    expect = {
+        "update_warmup_phase": lambda v: v["W"],
+        "update_light": lambda v: (not v["W"]) and (v["H0"] or v["P"]) and v["B"],
+        "update_heavy_r_eq1": lambda v: (not v["W"]) and not ((v["H0"] or v["P"]) and v["B"]) and v["R1"],
+        "update_heavy_general": lambda v: (not v["W"]) and not ((v["H0"] or v["P"]) and v["B"]) and not v["R1"],
+    }
+    probs = []
+    for name, f in expect.items():
+        if len(sites.get(name, [])) != 1:
+            probs.append("%s is called %d times" % (name, len(sites.get(name, []))))
+            continue
+        lits = [l for l, o in reach_tagged(fn["body"], sites[name][0]) if o not in ("after-throw",)]
+        # the accepted-weight guard (weight == 0 -> return) is not part of the dispatch
+        lits = [l for l in lits if not (strip(l).get("k") == "Bin" and strip(l).get("op") in ("==", "!=") and wd in (strip_all(strip(l)["l"]).get("d"), strip_all(strip(l)["r"]).get("d")))]
+        import itertools
+        for W, H0, P, B, R1 in itertools.product((True, False), repeat=5):
+            if W and R1:
+                continue
+            v = {"W": W, "H0": H0, "P": P, "B": B, "R1": R1}
+            vals = [tt_eval(l, mk_atom(v), inl) for l in lits]
+            got = False if any(x is False for x in vals) else (True if all(x is True for x in vals) else None)
+            if got is None or got != bool(f(v)):
+                probs.append("%s is reached under `%s`" % (name, " && ".join(txt(l, inl) for l in lits)))
+                break
+    ok = not probs
+    why = "; ".join(probs)[:400] + "; expected warm-up iff r_ == 0, light iff (h_ == 0 || weight <= peek_min()) && weight < (weight + total_wt_r_) / r_, else r_ == 1 ? heavy_r_eq1 : heavy_general"
     out.append(ob("varopt.update", "var_opt_sketch::update:dispatch", fn["pat"], "discharged" if ok else "violated", "warm-up while r_ == 0; light iff the item is not heavier than the lightest H item and lighter than the hypothetical tau; otherwise heavy (r_ == 1 special-cased)" if ok else why, fn["qname"]))
     # sample count
     fn2 = _fn(fs, R, "get_num_samples")
@@ -181,30 +207,31 @@ def ebpps(facts):
         return [ob("ebpps.update", "ebpps_sketch::internal_update:anchor", "", "unrecognised", "internal_update not found", "")]
     _weight_guard(fn, out, "ebpps.update", "ebpps_sketch::internal_update")
     t = [_t(s) for s in stmts_of(fn["body"])]
-    inl = {d: v["init"] for d, v in local_decls(fn).items() if v.get("init") is not None and v.get("const")}
+    from astu import single_assignment_locals
+    inl = single_assignment_locals(fn)   # whether or not the intermediate values are declared const
     stored = {}
     for st_ in stmts_of(fn["body"]):
         if st_.get("k") == "Expr":
             e = strip(st_["e"])
             if e.get("k") == "Assign" and e.get("op") == "=" and is_this_field(e["l"]):
-                stored[strip(e["l"])["f"]] = txt(e["r"], inl).replace(" ", "").replace("1.0", "1")
+                stored[strip(e["l"])["f"]] = C(txt(e["r"], inl).replace(" ", "").replace("1.0", "1"))
     want = {"cumulative_wt_": C("(cumulative_wt_+weight)"), "wt_max_": C("max(wt_max_,weight)"), "rho_": C("min((1/max(wt_max_,weight)),(k_/(cumulative_wt_+weight)))")}
     bad = {k: stored.get(k) for k, v in want.items() if stored.get(k) != v}
     out.append(ob("ebpps.update", "ebpps_sketch::internal_update:closed-forms", fn["pat"], "discharged" if not bad else "violated", "stored unconditionally: cumulative_wt_ + weight, max(wt_max_, weight), rho = min(1 / new wt_max, k_ / new cumulative weight)" if not bad else "the values stored at the end of the update are %s, expected %s" % (bad, {k: want[k] for k in bad}), fn["qname"]))
     ok = "++n_" in t or "n_++" in t
     out.append(ob("ebpps.update", "ebpps_sketch::internal_update:state-stored", fn["pat"], "discharged" if ok else "violated", "n_ is incremented unconditionally for every accepted item" if ok else "n_ is not incremented unconditionally at top level", fn["qname"]))
-    repl = [txt(strip_all(s_["e"])["args"][1], inl).replace(" ", "").replace("1.0", "1") for s_ in stmts_of(fn["body"]) if s_.get("k") == "Expr" and strip_all(s_["e"]).get("k") == "Call" and strip_all(s_["e"]).get("cname") == "replace_content" and len(strip_all(s_["e"]).get("args", [])) == 2]
+    repl = [C(txt(strip_all(s_["e"])["args"][1], inl).replace(" ", "").replace("1.0", "1")) for s_ in stmts_of(fn["body"]) if s_.get("k") == "Expr" and strip_all(s_["e"]).get("k") == "Call" and strip_all(s_["e"]).get("cname") == "replace_content" and len(strip_all(s_["e"]).get("args", [])) == 2]
     ok = "sample_.merge(tmp_)" in t and repl == [C("(min((1/max(wt_max_,weight)),(k_/(cumulative_wt_+weight)))*weight)")] and any(x.replace("0.0", "0") == "if" + C("(cumulative_wt_>0)") for x in t)
     out.append(ob("ebpps.update", "ebpps_sketch::internal_update:sample-step", fn["pat"], "discharged" if ok else "violated", "existing sample is down-sampled (when non-empty), the new item enters with probability mass new_rho * weight" if ok else "sample step changed: %s / %s" % (repl, t), fn["qname"]))
     fn = _fn(fs, R, "internal_merge")
     if fn is not None:
-        inl = {d: v["init"] for d, v in local_decls(fn).items() if v.get("init") is not None and v.get("const")}
+        inl = single_assignment_locals(fn)
         last = {}
         for st_ in stmts_of(fn["body"]):
             if st_.get("k") == "Expr":
                 e = strip(st_["e"])
                 if e.get("k") == "Assign" and e.get("op") == "=" and is_this_field(e["l"]):
-                    last[strip(e["l"])["f"]] = txt(e["r"], inl).replace(" ", "")
+                    last[strip(e["l"])["f"]] = C(txt(e["r"], inl).replace(" ", ""))
         need = {"cumulative_wt_": C("(cumulative_wt_+sk.cumulative_wt_)"), "wt_max_": C("max(wt_max_,sk.wt_max_)"), "n_": C("(n_+sk.n_)"), "k_": C("min(k_,sk.k_)")}
         missing = ["%s (stored: %s)" % (k, last.get(k)) for k, v in need.items() if last.get(k) != v]
         out.append(ob("ebpps.merge", "ebpps_sketch::internal_merge:accounting", fn["pat"], "discharged" if not missing else "violated", "merge stores n_ + other.n_, the summed cumulative weight, the larger maximum weight and the smaller k" if not missing else "merge does not finally store the expected value of %s: c = min(k, cumulative weight / maximum weight) no longer holds after the merge" % ", ".join(missing), fn["qname"]))
